@@ -126,8 +126,22 @@ pub fn corpus(quick: bool) -> Vec<Gen> {
     let by = gram::bodies_by_size(gram::PLAIN_LEAVES, &gram::UNARY[..9], max);
     for (i, level) in by.iter().enumerate() {
         for b in level {
-            for (m, sdef) in [("", "s = { \"a\" ~ \"b\" }"), ("@", "s = _{ \"a\"? }"), ("", "s = { r? ~ \"a\" }")] {
+            // callee rules: progressing; nullable; recursive through r; non-progressing but able to
+            // fail (predicates, SOI/EOI); non-failing
+            let sdefs: &[(&str, &str)] = &[
+                ("", "s = { \"a\" ~ \"b\" }"),
+                ("@", "s = _{ \"a\"? }"),
+                ("", "s = { r? ~ \"a\" }"),
+                ("", "s = { !\"a\" }"),
+                ("", "s = _{ &\"a\" ~ SOI }"),
+                ("$", "s = { \"\" | \"a\" }"),
+                ("", "s = { t ~ t } t = _{ !\"b\" }"),
+            ];
+            for (si, (m, sdef)) in sdefs.iter().enumerate() {
                 if i >= 5 && !sdef.contains("r?") {
+                    continue;
+                }
+                if i >= 4 && si >= 3 && quick {
                     continue;
                 }
                 out.push(Gen { text: format!("{sdef} r = {m}{{ {b} }}"), class: "plain" });
@@ -368,7 +382,7 @@ pub fn confirm(grammar: &str, rule: &str, input: &str) -> Confirm {
             Ok(None) => {}
             Err(e) => return Confirm::StackOverflowOrAbort(format!("wait failed: {e}")),
         }
-        if t0.elapsed() > Duration::from_secs(10) {
+        if t0.elapsed() > Duration::from_secs(3) {
             let _ = child.kill();
             let _ = child.wait();
             return Confirm::Timeout;
@@ -428,7 +442,7 @@ pub fn cycle_operators(rules: &[Rule]) -> Vec<String> {
     ops
 }
 
-pub fn check_one(g: &Gen, known: &Known, stats: &mut Stats, inputs: &[String], confirm_budget: &mut usize) {
+pub fn check_one(g: &Gen, known: &Known, stats: &mut Stats, inputs: &[String], confirm_budget: &mut usize, confirm_wall: &mut Duration) {
     stats.inc("grammars_generated");
     stats.inc(&format!("generated.{}", g.class));
     // the abstract rules, without the validator (hook H4)
@@ -505,20 +519,23 @@ pub fn check_one(g: &Gen, known: &Known, stats: &mut Stats, inputs: &[String], c
             // accepted, and the reference semantics diverges: confirm on the real engine
             let mut confirmed: Option<(String, String, String)> = None;
             for (rule, input) in &diverging {
-                if *confirm_budget == 0 {
+                if *confirm_budget == 0 || confirm_wall.is_zero() {
                     stats.cap("confirmation budget exhausted; remaining model divergences are counted but not confirmed");
                     break;
                 }
                 *confirm_budget -= 1;
                 stats.inc("confirmations_run");
-                match confirm(&g.text, rule, input) {
+                let t0 = Instant::now();
+                let verdict = confirm(&g.text, rule, input);
+                *confirm_wall = confirm_wall.saturating_sub(t0.elapsed());
+                match verdict {
                     Confirm::Returned => stats.inc("model-only-divergence(real engine returned)"),
                     Confirm::StackOverflowOrAbort(how) => {
                         confirmed = Some((rule.clone(), input.clone(), format!("child died: {how}")));
                         break;
                     }
                     Confirm::Timeout => {
-                        confirmed = Some((rule.clone(), input.clone(), "child did not return within 10 s".into()));
+                        confirmed = Some((rule.clone(), input.clone(), "child did not return within 3 s".into()));
                         break;
                     }
                 }
@@ -544,6 +561,7 @@ pub fn run(quick: bool, w: &mut Worker, known: &Known, stats: &mut Stats) {
     let mut dedup = gram::Dedup::default();
     let mut idx = 0u64;
     let mut budget = if quick { 400 } else { 4000 };
+    let mut wall = Duration::from_secs(if quick { 12 } else { 120 });
     for g in &corpus {
         if !dedup.fresh(&g.text) {
             continue;
@@ -555,7 +573,7 @@ pub fn run(quick: bool, w: &mut Worker, known: &Known, stats: &mut Stats) {
         if !w.begin(|| g.text.clone()) {
             continue;
         }
-        check_one(g, known, stats, &inputs, &mut budget);
+        check_one(g, known, stats, &inputs, &mut budget, &mut wall);
     }
 }
 
@@ -565,7 +583,8 @@ pub fn replay(case: &Value) -> bool {
     let mut st = Stats::new();
     let inputs = vcore::strings_upto(&['a', 'b', ' '], 3);
     let mut budget = 8;
-    check_one(&g, &Known::default(), &mut st, &inputs, &mut budget);
+    let mut wall = Duration::from_secs(30);
+    check_one(&g, &Known::default(), &mut st, &inputs, &mut budget, &mut wall);
     for v in &st.violations {
         println!("{v:#}");
     }
